@@ -1,6 +1,129 @@
+Codec/Header.vo Codec/Header.glob Codec/Header.v.beautified Codec/Header.required_vo: Codec/Header.v Gen/CodecGen.vo Codec/Reader.vo Codec/Varint.vo Codec/Universe.vo
+Codec/Header.vio: Codec/Header.v Gen/CodecGen.vio Codec/Reader.vio Codec/Varint.vio Codec/Universe.vio
+Codec/Header.vos Codec/Header.vok Codec/Header.required_vos: Codec/Header.v Gen/CodecGen.vos Codec/Reader.vos Codec/Varint.vos Codec/Universe.vos
+Codec/HeaderProofs.vo Codec/HeaderProofs.glob Codec/HeaderProofs.v.beautified Codec/HeaderProofs.required_vo: Codec/HeaderProofs.v Gen/CodecGen.vo Codec/Reader.vo Codec/ReaderProofs.vo Codec/Varint.vo Codec/VarintProofs.vo Codec/Universe.vo Codec/UniverseProofs.vo Codec/Header.vo
+Codec/HeaderProofs.vio: Codec/HeaderProofs.v Gen/CodecGen.vio Codec/Reader.vio Codec/ReaderProofs.vio Codec/Varint.vio Codec/VarintProofs.vio Codec/Universe.vio Codec/UniverseProofs.vio Codec/Header.vio
+Codec/HeaderProofs.vos Codec/HeaderProofs.vok Codec/HeaderProofs.required_vos: Codec/HeaderProofs.v Gen/CodecGen.vos Codec/Reader.vos Codec/ReaderProofs.vos Codec/Varint.vos Codec/VarintProofs.vos Codec/Universe.vos Codec/UniverseProofs.vos Codec/Header.vos
+Codec/Reader.vo Codec/Reader.glob Codec/Reader.v.beautified Codec/Reader.required_vo: Codec/Reader.v 
+Codec/Reader.vio: Codec/Reader.v 
+Codec/Reader.vos Codec/Reader.vok Codec/Reader.required_vos: Codec/Reader.v 
+Codec/ReaderProofs.vo Codec/ReaderProofs.glob Codec/ReaderProofs.v.beautified Codec/ReaderProofs.required_vo: Codec/ReaderProofs.v Codec/Reader.vo
+Codec/ReaderProofs.vio: Codec/ReaderProofs.v Codec/Reader.vio
+Codec/ReaderProofs.vos Codec/ReaderProofs.vok Codec/ReaderProofs.required_vos: Codec/ReaderProofs.v Codec/Reader.vos
+Codec/Universe.vo Codec/Universe.glob Codec/Universe.v.beautified Codec/Universe.required_vo: Codec/Universe.v Codec/Reader.vo Codec/Varint.vo
+Codec/Universe.vio: Codec/Universe.v Codec/Reader.vio Codec/Varint.vio
+Codec/Universe.vos Codec/Universe.vok Codec/Universe.required_vos: Codec/Universe.v Codec/Reader.vos Codec/Varint.vos
+Codec/UniverseProofs.vo Codec/UniverseProofs.glob Codec/UniverseProofs.v.beautified Codec/UniverseProofs.required_vo: Codec/UniverseProofs.v Codec/Reader.vo Codec/ReaderProofs.vo Codec/Varint.vo Codec/VarintProofs.vo Codec/Universe.vo
+Codec/UniverseProofs.vio: Codec/UniverseProofs.v Codec/Reader.vio Codec/ReaderProofs.vio Codec/Varint.vio Codec/VarintProofs.vio Codec/Universe.vio
+Codec/UniverseProofs.vos Codec/UniverseProofs.vok Codec/UniverseProofs.required_vos: Codec/UniverseProofs.v Codec/Reader.vos Codec/ReaderProofs.vos Codec/Varint.vos Codec/VarintProofs.vos Codec/Universe.vos
+Codec/Varint.vo Codec/Varint.glob Codec/Varint.v.beautified Codec/Varint.required_vo: Codec/Varint.v Codec/Reader.vo
+Codec/Varint.vio: Codec/Varint.v Codec/Reader.vio
+Codec/Varint.vos Codec/Varint.vok Codec/Varint.required_vos: Codec/Varint.v Codec/Reader.vos
+Codec/VarintProofs.vo Codec/VarintProofs.glob Codec/VarintProofs.v.beautified Codec/VarintProofs.required_vo: Codec/VarintProofs.v Codec/Reader.vo Codec/ReaderProofs.vo Codec/Varint.vo
+Codec/VarintProofs.vio: Codec/VarintProofs.v Codec/Reader.vio Codec/ReaderProofs.vio Codec/Varint.vio
+Codec/VarintProofs.vos Codec/VarintProofs.vok Codec/VarintProofs.required_vos: Codec/VarintProofs.v Codec/Reader.vos Codec/ReaderProofs.vos Codec/Varint.vos
+Compiler/Snapshot.vo Compiler/Snapshot.glob Compiler/Snapshot.v.beautified Compiler/Snapshot.required_vo: Compiler/Snapshot.v Gen/SnapshotGen.vo
+Compiler/Snapshot.vio: Compiler/Snapshot.v Gen/SnapshotGen.vio
+Compiler/Snapshot.vos Compiler/Snapshot.vok Compiler/Snapshot.required_vos: Compiler/Snapshot.v Gen/SnapshotGen.vos
+Compiler/SnapshotCheck.vo Compiler/SnapshotCheck.glob Compiler/SnapshotCheck.v.beautified Compiler/SnapshotCheck.required_vo: Compiler/SnapshotCheck.v Gen/SnapshotGen.vo Compiler/Snapshot.vo
+Compiler/SnapshotCheck.vio: Compiler/SnapshotCheck.v Gen/SnapshotGen.vio Compiler/Snapshot.vio
+Compiler/SnapshotCheck.vos Compiler/SnapshotCheck.vok Compiler/SnapshotCheck.required_vos: Compiler/SnapshotCheck.v Gen/SnapshotGen.vos Compiler/Snapshot.vos
+Compiler/SnapshotProofs.vo Compiler/SnapshotProofs.glob Compiler/SnapshotProofs.v.beautified Compiler/SnapshotProofs.required_vo: Compiler/SnapshotProofs.v Gen/SnapshotGen.vo Compiler/Snapshot.vo
+Compiler/SnapshotProofs.vio: Compiler/SnapshotProofs.v Gen/SnapshotGen.vio Compiler/Snapshot.vio
+Compiler/SnapshotProofs.vos Compiler/SnapshotProofs.vok Compiler/SnapshotProofs.required_vos: Compiler/SnapshotProofs.v Gen/SnapshotGen.vos Compiler/Snapshot.vos
+Cond/Check.vo Cond/Check.glob Cond/Check.v.beautified Cond/Check.required_vo: Cond/Check.v Cond/Syntax.vo Cond/Sem.vo Cond/Quirks.vo Cond/RuleSet.vo
+Cond/Check.vio: Cond/Check.v Cond/Syntax.vio Cond/Sem.vio Cond/Quirks.vio Cond/RuleSet.vio
+Cond/Check.vos Cond/Check.vok Cond/Check.required_vos: Cond/Check.v Cond/Syntax.vos Cond/Sem.vos Cond/Quirks.vos Cond/RuleSet.vos
+Cond/Quirks.vo Cond/Quirks.glob Cond/Quirks.v.beautified Cond/Quirks.required_vo: Cond/Quirks.v Cond/Syntax.vo Cond/Sem.vo
+Cond/Quirks.vio: Cond/Quirks.v Cond/Syntax.vio Cond/Sem.vio
+Cond/Quirks.vos Cond/Quirks.vok Cond/Quirks.required_vos: Cond/Quirks.v Cond/Syntax.vos Cond/Sem.vos
+Cond/RuleSet.vo Cond/RuleSet.glob Cond/RuleSet.v.beautified Cond/RuleSet.required_vo: Cond/RuleSet.v Cond/Syntax.vo Cond/Sem.vo
+Cond/RuleSet.vio: Cond/RuleSet.v Cond/Syntax.vio Cond/Sem.vio
+Cond/RuleSet.vos Cond/RuleSet.vok Cond/RuleSet.required_vos: Cond/RuleSet.v Cond/Syntax.vos Cond/Sem.vos
+Cond/Sem.vo Cond/Sem.glob Cond/Sem.v.beautified Cond/Sem.required_vo: Cond/Sem.v Cond/Syntax.vo
+Cond/Sem.vio: Cond/Sem.v Cond/Syntax.vio
+Cond/Sem.vos Cond/Sem.vok Cond/Sem.required_vos: Cond/Sem.v Cond/Syntax.vos
+Cond/Syntax.vo Cond/Syntax.glob Cond/Syntax.v.beautified Cond/Syntax.required_vo: Cond/Syntax.v 
+Cond/Syntax.vio: Cond/Syntax.v 
+Cond/Syntax.vos Cond/Syntax.vok Cond/Syntax.required_vos: Cond/Syntax.v 
+Fmt/Bubble.vo Fmt/Bubble.glob Fmt/Bubble.v.beautified Fmt/Bubble.required_vo: Fmt/Bubble.v Fmt/Tokens.vo Gen/FmtCats.vo Fmt/Processor.vo
+Fmt/Bubble.vio: Fmt/Bubble.v Fmt/Tokens.vio Gen/FmtCats.vio Fmt/Processor.vio
+Fmt/Bubble.vos Fmt/Bubble.vok Fmt/Bubble.required_vos: Fmt/Bubble.v Fmt/Tokens.vos Gen/FmtCats.vos Fmt/Processor.vos
+Fmt/BubbleProofs.vo Fmt/BubbleProofs.glob Fmt/BubbleProofs.v.beautified Fmt/BubbleProofs.required_vo: Fmt/BubbleProofs.v Fmt/Tokens.vo Gen/FmtCats.vo Fmt/Processor.vo Fmt/ProcessorProofs.vo Fmt/Bubble.vo
+Fmt/BubbleProofs.vio: Fmt/BubbleProofs.v Fmt/Tokens.vio Gen/FmtCats.vio Fmt/Processor.vio Fmt/ProcessorProofs.vio Fmt/Bubble.vio
+Fmt/BubbleProofs.vos Fmt/BubbleProofs.vok Fmt/BubbleProofs.required_vos: Fmt/BubbleProofs.v Fmt/Tokens.vos Gen/FmtCats.vos Fmt/Processor.vos Fmt/ProcessorProofs.vos Fmt/Bubble.vos
+Fmt/FmtCheck.vo Fmt/FmtCheck.glob Fmt/FmtCheck.v.beautified Fmt/FmtCheck.required_vo: Fmt/FmtCheck.v Fmt/Tokens.vo Gen/FmtCats.vo Fmt/Processor.vo Fmt/Bubble.vo
+Fmt/FmtCheck.vio: Fmt/FmtCheck.v Fmt/Tokens.vio Gen/FmtCats.vio Fmt/Processor.vio Fmt/Bubble.vio
+Fmt/FmtCheck.vos Fmt/FmtCheck.vok Fmt/FmtCheck.required_vos: Fmt/FmtCheck.v Fmt/Tokens.vos Gen/FmtCats.vos Fmt/Processor.vos Fmt/Bubble.vos
+Fmt/FmtRulesProofs.vo Fmt/FmtRulesProofs.glob Fmt/FmtRulesProofs.v.beautified Fmt/FmtRulesProofs.required_vo: Fmt/FmtRulesProofs.v Fmt/Tokens.vo Gen/FmtCats.vo Fmt/Processor.vo Fmt/ProcessorProofs.vo Fmt/Bubble.vo Fmt/BubbleProofs.vo Gen/FmtRules.vo
+Fmt/FmtRulesProofs.vio: Fmt/FmtRulesProofs.v Fmt/Tokens.vio Gen/FmtCats.vio Fmt/Processor.vio Fmt/ProcessorProofs.vio Fmt/Bubble.vio Fmt/BubbleProofs.vio Gen/FmtRules.vio
+Fmt/FmtRulesProofs.vos Fmt/FmtRulesProofs.vok Fmt/FmtRulesProofs.required_vos: Fmt/FmtRulesProofs.v Fmt/Tokens.vos Gen/FmtCats.vos Fmt/Processor.vos Fmt/ProcessorProofs.vos Fmt/Bubble.vos Fmt/BubbleProofs.vos Gen/FmtRules.vos
+Fmt/Processor.vo Fmt/Processor.glob Fmt/Processor.v.beautified Fmt/Processor.required_vo: Fmt/Processor.v Fmt/Tokens.vo Gen/FmtCats.vo
+Fmt/Processor.vio: Fmt/Processor.v Fmt/Tokens.vio Gen/FmtCats.vio
+Fmt/Processor.vos Fmt/Processor.vok Fmt/Processor.required_vos: Fmt/Processor.v Fmt/Tokens.vos Gen/FmtCats.vos
+Fmt/ProcessorProofs.vo Fmt/ProcessorProofs.glob Fmt/ProcessorProofs.v.beautified Fmt/ProcessorProofs.required_vo: Fmt/ProcessorProofs.v Fmt/Tokens.vo Gen/FmtCats.vo Fmt/Processor.vo
+Fmt/ProcessorProofs.vio: Fmt/ProcessorProofs.v Fmt/Tokens.vio Gen/FmtCats.vio Fmt/Processor.vio
+Fmt/ProcessorProofs.vos Fmt/ProcessorProofs.vok Fmt/ProcessorProofs.required_vos: Fmt/ProcessorProofs.v Fmt/Tokens.vos Gen/FmtCats.vos Fmt/Processor.vos
+Fmt/Tokens.vo Fmt/Tokens.glob Fmt/Tokens.v.beautified Fmt/Tokens.required_vo: Fmt/Tokens.v 
+Fmt/Tokens.vio: Fmt/Tokens.v 
+Fmt/Tokens.vos Fmt/Tokens.vok Fmt/Tokens.required_vos: Fmt/Tokens.v 
+Gen/CodecGen.vo Gen/CodecGen.glob Gen/CodecGen.v.beautified Gen/CodecGen.required_vo: Gen/CodecGen.v 
+Gen/CodecGen.vio: Gen/CodecGen.v 
+Gen/CodecGen.vos Gen/CodecGen.vok Gen/CodecGen.required_vos: Gen/CodecGen.v 
+Gen/FmtCats.vo Gen/FmtCats.glob Gen/FmtCats.v.beautified Gen/FmtCats.required_vo: Gen/FmtCats.v Fmt/Tokens.vo
+Gen/FmtCats.vio: Gen/FmtCats.v Fmt/Tokens.vio
+Gen/FmtCats.vos Gen/FmtCats.vok Gen/FmtCats.required_vos: Gen/FmtCats.v Fmt/Tokens.vos
+Gen/FmtRules.vo Gen/FmtRules.glob Gen/FmtRules.v.beautified Gen/FmtRules.required_vo: Gen/FmtRules.v Fmt/Tokens.vo Gen/FmtCats.vo Fmt/Processor.vo Fmt/Bubble.vo
+Gen/FmtRules.vio: Gen/FmtRules.v Fmt/Tokens.vio Gen/FmtCats.vio Fmt/Processor.vio Fmt/Bubble.vio
+Gen/FmtRules.vos Gen/FmtRules.vok Gen/FmtRules.required_vos: Gen/FmtRules.v Fmt/Tokens.vos Gen/FmtCats.vos Fmt/Processor.vos Fmt/Bubble.vos
+Gen/Grammar.vo Gen/Grammar.glob Gen/Grammar.v.beautified Gen/Grammar.required_vo: Gen/Grammar.v Parser/Machine.vo
+Gen/Grammar.vio: Gen/Grammar.v Parser/Machine.vio
+Gen/Grammar.vos Gen/Grammar.vok Gen/Grammar.required_vos: Gen/Grammar.v Parser/Machine.vos
+Gen/PatConsts.vo Gen/PatConsts.glob Gen/PatConsts.v.beautified Gen/PatConsts.required_vo: Gen/PatConsts.v 
+Gen/PatConsts.vio: Gen/PatConsts.v 
+Gen/PatConsts.vos Gen/PatConsts.vok Gen/PatConsts.required_vos: Gen/PatConsts.v 
+Gen/ScanState.vo Gen/ScanState.glob Gen/ScanState.v.beautified Gen/ScanState.required_vo: Gen/ScanState.v 
+Gen/ScanState.vio: Gen/ScanState.v 
+Gen/ScanState.vos Gen/ScanState.vok Gen/ScanState.required_vos: Gen/ScanState.v 
+Gen/SnapshotGen.vo Gen/SnapshotGen.glob Gen/SnapshotGen.v.beautified Gen/SnapshotGen.required_vo: Gen/SnapshotGen.v 
+Gen/SnapshotGen.vio: Gen/SnapshotGen.v 
+Gen/SnapshotGen.vos Gen/SnapshotGen.vok Gen/SnapshotGen.required_vos: Gen/SnapshotGen.v 
 Gen/TrackingGen.vo Gen/TrackingGen.glob Gen/TrackingGen.v.beautified Gen/TrackingGen.required_vo: Gen/TrackingGen.v Scanner/PrivIter.vo Scanner/Tracking.vo
 Gen/TrackingGen.vio: Gen/TrackingGen.v Scanner/PrivIter.vio Scanner/Tracking.vio
 Gen/TrackingGen.vos Gen/TrackingGen.vok Gen/TrackingGen.required_vos: Gen/TrackingGen.v Scanner/PrivIter.vos Scanner/Tracking.vos
+Parser/Machine.vo Parser/Machine.glob Parser/Machine.v.beautified Parser/Machine.required_vo: Parser/Machine.v 
+Parser/Machine.vio: Parser/Machine.v 
+Parser/Machine.vos Parser/Machine.vok Parser/Machine.required_vos: Parser/Machine.v 
+Parser/ParserCheck.vo Parser/ParserCheck.glob Parser/ParserCheck.v.beautified Parser/ParserCheck.required_vo: Parser/ParserCheck.v Parser/Machine.vo Parser/Position.vo Gen/Grammar.vo
+Parser/ParserCheck.vio: Parser/ParserCheck.v Parser/Machine.vio Parser/Position.vio Gen/Grammar.vio
+Parser/ParserCheck.vos Parser/ParserCheck.vok Parser/ParserCheck.required_vos: Parser/ParserCheck.v Parser/Machine.vos Parser/Position.vos Gen/Grammar.vos
+Parser/Position.vo Parser/Position.glob Parser/Position.v.beautified Parser/Position.required_vo: Parser/Position.v 
+Parser/Position.vio: Parser/Position.v 
+Parser/Position.vos Parser/Position.vok Parser/Position.required_vos: Parser/Position.v 
+Pat/MatchList.vo Pat/MatchList.glob Pat/MatchList.v.beautified Pat/MatchList.required_vo: Pat/MatchList.v Gen/PatConsts.vo
+Pat/MatchList.vio: Pat/MatchList.v Gen/PatConsts.vio
+Pat/MatchList.vos Pat/MatchList.vok Pat/MatchList.required_vos: Pat/MatchList.v Gen/PatConsts.vos
+Pat/MatchListProofs.vo Pat/MatchListProofs.glob Pat/MatchListProofs.v.beautified Pat/MatchListProofs.required_vo: Pat/MatchListProofs.v Gen/PatConsts.vo Pat/MatchList.vo
+Pat/MatchListProofs.vio: Pat/MatchListProofs.v Gen/PatConsts.vio Pat/MatchList.vio
+Pat/MatchListProofs.vos Pat/MatchListProofs.vok Pat/MatchListProofs.required_vos: Pat/MatchListProofs.v Gen/PatConsts.vos Pat/MatchList.vos
+Pat/Matcher.vo Pat/Matcher.glob Pat/Matcher.v.beautified Pat/Matcher.required_vo: Pat/Matcher.v Pat/Syntax.vo Pat/Sem.vo
+Pat/Matcher.vio: Pat/Matcher.v Pat/Syntax.vio Pat/Sem.vio
+Pat/Matcher.vos Pat/Matcher.vok Pat/Matcher.required_vos: Pat/Matcher.v Pat/Syntax.vos Pat/Sem.vos
+Pat/MatcherProofs.vo Pat/MatcherProofs.glob Pat/MatcherProofs.v.beautified Pat/MatcherProofs.required_vo: Pat/MatcherProofs.v Pat/Syntax.vo Pat/Sem.vo Pat/Matcher.vo
+Pat/MatcherProofs.vio: Pat/MatcherProofs.v Pat/Syntax.vio Pat/Sem.vio Pat/Matcher.vio
+Pat/MatcherProofs.vos Pat/MatcherProofs.vok Pat/MatcherProofs.required_vos: Pat/MatcherProofs.v Pat/Syntax.vos Pat/Sem.vos Pat/Matcher.vos
+Pat/Modifiers.vo Pat/Modifiers.glob Pat/Modifiers.v.beautified Pat/Modifiers.required_vo: Pat/Modifiers.v Pat/Syntax.vo Pat/Sem.vo Pat/Matcher.vo
+Pat/Modifiers.vio: Pat/Modifiers.v Pat/Syntax.vio Pat/Sem.vio Pat/Matcher.vio
+Pat/Modifiers.vos Pat/Modifiers.vok Pat/Modifiers.required_vos: Pat/Modifiers.v Pat/Syntax.vos Pat/Sem.vos Pat/Matcher.vos
+Pat/ModifiersProofs.vo Pat/ModifiersProofs.glob Pat/ModifiersProofs.v.beautified Pat/ModifiersProofs.required_vo: Pat/ModifiersProofs.v Pat/Syntax.vo Pat/Sem.vo Pat/Matcher.vo Pat/MatcherProofs.vo Pat/Modifiers.vo
+Pat/ModifiersProofs.vio: Pat/ModifiersProofs.v Pat/Syntax.vio Pat/Sem.vio Pat/Matcher.vio Pat/MatcherProofs.vio Pat/Modifiers.vio
+Pat/ModifiersProofs.vos Pat/ModifiersProofs.vok Pat/ModifiersProofs.required_vos: Pat/ModifiersProofs.v Pat/Syntax.vos Pat/Sem.vos Pat/Matcher.vos Pat/MatcherProofs.vos Pat/Modifiers.vos
+Pat/Sem.vo Pat/Sem.glob Pat/Sem.v.beautified Pat/Sem.required_vo: Pat/Sem.v Pat/Syntax.vo
+Pat/Sem.vio: Pat/Sem.v Pat/Syntax.vio
+Pat/Sem.vos Pat/Sem.vok Pat/Sem.required_vos: Pat/Sem.v Pat/Syntax.vos
+Pat/Syntax.vo Pat/Syntax.glob Pat/Syntax.v.beautified Pat/Syntax.required_vo: Pat/Syntax.v 
+Pat/Syntax.vio: Pat/Syntax.v 
+Pat/Syntax.vos Pat/Syntax.vok Pat/Syntax.required_vos: Pat/Syntax.v 
 Scanner/PrivIter.vo Scanner/PrivIter.glob Scanner/PrivIter.v.beautified Scanner/PrivIter.required_vo: Scanner/PrivIter.v 
 Scanner/PrivIter.vio: Scanner/PrivIter.v 
 Scanner/PrivIter.vos Scanner/PrivIter.vok Scanner/PrivIter.required_vos: Scanner/PrivIter.v 
